@@ -23,6 +23,7 @@ def dispatch (o : Oracle) (kind : String) (args : List String) (body : List (Lis
   | "writer" => Writer.session args body
   | "router" => Router.session o.engine args body
   | "ret" => Ret.session args body
+  | "retseq" => Ret.seqSession args body
   | "inject" => Inject.session args body
   | "injectflame" => Inject.flameSession args body
   | "static" => Static.session args body
